@@ -34,7 +34,7 @@ ASSUMPTIONS = [
     "for WOFF2 sources the tag->bytes model of transformed tables comes from fontTools' own reconstruction",
     "the dependency closure of a touch set is an over-approximation measured on the pinned tree and widened by code reading",
 ]
-EXPECTED_PROBES = ["foreign.cmap", "foreign.GPOS", "foreign.glyf", "foreign.VDMX", "foreign.hdmx", "foreign.LTSH", "passthrough.no_decoder_checked", "passthrough.tables_checked", "content.tables_checked", "fixedpoint.checked", "source.short", "source.unseekable", "lazy.True"]
+EXPECTED_PROBES = ["foreign.post", "foreign.cmap", "foreign.GPOS", "foreign.glyf", "foreign.VDMX", "foreign.hdmx", "foreign.LTSH", "passthrough.no_decoder_checked", "passthrough.tables_checked", "content.tables_checked", "fixedpoint.checked", "source.short", "source.unseekable", "lazy.True"]
 
 TIERS = {
     "quick": {"budget_s": 600, "determinism_sample": 12, "n": {"sweep": 9000}, "minimise_s": 40, "max_minimise": 3},
@@ -96,7 +96,9 @@ RECALCULATED = {"head", "hhea", "vhea", "maxp", "CFF ", "glyf", "loca"}
 
 import re
 
-_MASK = re.compile(r'^\s*<(checkSumAdjustment|indexToLocFormat|usFirstCharIndex|usLastCharIndex|psName) [^>]*/>\s*$', re.M)
+# (of post only the <extraNames> list - a <psName> with just a name - is masked: the compiler rebuilds that list;
+# the glyph name -> PostScript name mapping lines are content)
+_MASK = re.compile(r'^\s*<(?:(?:checkSumAdjustment|indexToLocFormat|usFirstCharIndex|usLastCharIndex) [^>]*|psName name="[^"]*")/>\s*$', re.M)
 
 
 def mask_derived(xml):
@@ -220,7 +222,7 @@ def generate(ctx, batch, idx):
         "probe_keys": r.random() < 0.5,
         # transplant tables the library has no decoder for (sfnt sources only)
         # tables as another conforming writer stores them (oracles.foreign; sfnt sources only)
-        "foreign": {"cmap": r.randrange(1 << 30) if r.random() < 0.12 else None, "gpos": r.randrange(1 << 30) if r.random() < 0.12 else None, "glyf": r.randrange(1 << 30) if r.random() < 0.12 else None, "dev": r.randrange(1 << 30) if r.random() < 0.1 else None},
+        "foreign": {"cmap": r.randrange(1 << 30) if r.random() < 0.12 else None, "gpos": r.randrange(1 << 30) if r.random() < 0.12 else None, "glyf": r.randrange(1 << 30) if r.random() < 0.12 else None, "dev": r.randrange(1 << 30) if r.random() < 0.1 else None, "post": r.randrange(1 << 30) if r.random() < 0.1 else None},
         "opaque": [[r.choice(["ZZZZ", "Xtra", "zz  ", "TeSt"]), r.choice([0, 1, 2, 3, 4, 7, 64]), r.choice(["nuls", "random", "nul-tail"]), r.randrange(1 << 30)] for _ in range(r.choice([0, 0, 1, 2]))],
     }
 
@@ -317,7 +319,7 @@ def _execute(ctx, h, scratch):
             pass
     foreign_tags = []
     fg = h.get("foreign") or {}
-    if any(fg.get(k_) is not None for k_ in ("cmap", "gpos", "glyf", "dev")) and container.kind_of(src) == "sfnt":
+    if any(fg.get(k_) is not None for k_ in ("cmap", "gpos", "glyf", "dev", "post")) and container.kind_of(src) == "sfnt":
         try:
             tabs = dict(container.tables_of(src))
             if fg.get("cmap") is not None and "cmap" in tabs:
@@ -338,6 +340,11 @@ def _execute(ctx, h, scratch):
                     if t not in tabs and rr.random() < 0.7:
                         tabs[t] = mk()
                         foreign_tags.append(t)
+            if fg.get("post") is not None and "glyf" in tabs and "post" in tabs and "maxp" in tabs and len(tabs["maxp"]) >= 6:
+                pt = foreign.post2(tabs["post"], struct.unpack_from(">H", tabs["maxp"], 4)[0], prng.sub("fpost", fg["post"]))
+                if pt is not None:
+                    tabs["post"] = pt
+                    foreign_tags.append("post")
             if fg.get("glyf") is not None and "glyf" in tabs:
                 rr = prng.sub("fglyf", fg["glyf"])
                 v = container.foreign_variant(container.rebuild_sfnt(src[:4], tabs), longloca=rr.random() < 0.4, loosebbox=rr.choice([None, rr.randrange(1 << 16)]), compflags=rr.choice([None, rr.randrange(1 << 16), rr.randrange(1 << 16)]), emptyinstr=rr.choice([None, rr.randrange(1 << 16)]))
@@ -550,7 +557,7 @@ def simplify(ctx, h):
         c = copy.deepcopy(h)
         c["lazy"] = None
         yield c
-    for k in ("cmap", "gpos", "glyf", "dev"):
+    for k in ("cmap", "gpos", "glyf", "dev", "post"):
         if (h.get("foreign") or {}).get(k) is not None:
             c = copy.deepcopy(h)
             c["foreign"][k] = None
